@@ -249,7 +249,7 @@ pub fn records(rng: &mut Rng, cfg: &Cfg) -> Vec<Rec> {
     let names = ["N", "CA", "C", "O", "CB", "SG", "ca", "OXT", "ZN", "H", "HA", "X1", "1HB"];
     let resnames = ["ALA", "GLY", "CYS", "HOH", "ala", "MSE", "ZN", "A"];
     let first_serial = if cfg.wraps && rng.chance(1, 3) { 99_990 + rng.below(8) } else { 1 + rng.below(50) };
-    let mut serial = first_serial;
+    let mut serial;
     let shape_seed = rng.next();
     for mi in 0..n_models.max(1) {
         if n_models > 0 {
